@@ -250,7 +250,7 @@ func TestVerif_C15_signbytes(t *testing.T) {
 		}
 	}
 	// PRNG draws (mix of edge and random components)
-	nDraw := r.N(60000, 1500000)
+	nDraw := r.N(60000, 400000)
 	pool := append([]string{}, hh...)
 	for i := 0; i < nDraw; i++ {
 		kind := "prevote"
@@ -297,7 +297,7 @@ func TestVerif_C15_signbytes(t *testing.T) {
 	}
 
 	// proposals
-	nProp := r.N(1500, 40000)
+	nProp := r.N(1500, 15000)
 	for i := 0; i < nProp; i++ {
 		caseID := fmt.Sprintf("sign/proposal/%d", i)
 		vars := propVariants(r, i)
